@@ -212,6 +212,9 @@ func runC20(cx *CheckCtx) {
 				ok = vk[3].Args[0] == cntPut.Args[2]
 			}
 		}
+		if ok {
+			cx.decide(executedAtEveryExit(pa, valPut, cntPut), "put-always", "reputation.Put", "every normal return has stored the value and the counter", "reputation.Put can return normally without storing the submitted value (or without advancing the counter: the next value overwrites it)", w.pos(pm.Fn.Pos()))
+		}
 		cx.decide(ok, "put-get-key", "reputation.Put|Get", "values under 'r'‖id‖n with n the stored counter of 'c'‖id; Get scans 'r'‖id with the same id = bytes(epoch)‖peer", "reputation.Get does not scan the keys reputation.Put writes for the same (epoch, peer), or the value index is not the stored counter (values overwrite each other)", w.pos(pm.Fn.Pos()))
 	}
 	// audit
@@ -240,6 +243,9 @@ func runC20(cx *CheckCtx) {
 						ps[2] == tb.mk("slice", "", 0, tb.mk("call", "native/crypto.Sha256", 0, paramTerm(tb, lm, "key")), tb.mk("none", "", 0), tb.constInt(24))
 				}
 			}
+		}
+		if ok {
+			cx.decide(executedAtEveryExit(pa, put), "put-always", "audit.Put", "every normal return has stored the result", "audit.Put can return normally without storing the submitted result", w.pos(pm.Fn.Pos()))
 		}
 		cx.decide(ok && okNode, "put-get-key", "audit.Put|ListByNode", "both build bytes(epoch)‖cid‖sha256(key)[:24]", "audit.ListByNode does not build the id audit.Put stores results under", w.pos(pm.Fn.Pos()))
 		if ok {
@@ -534,4 +540,19 @@ func containerIsStorageNodeFn(cx *CheckCtx) *ssa.Function {
 		}
 		return callsWithConstArg(f, "contract.Call", 1, "snapshot")
 	})
+}
+
+// executedAtEveryExit: every normal exit of the analysis has executed each of the sites.
+func executedAtEveryExit(a *Analysis, sites ...*Site) bool {
+	if len(a.Exits()) == 0 {
+		return false
+	}
+	for _, ex := range a.Exits() {
+		for _, s := range sites {
+			if s == nil || !a.holdsAt(ex.State, a.eLit(s)) {
+				return false
+			}
+		}
+	}
+	return true
 }
